@@ -150,5 +150,8 @@ class WeightedSum(Component):
 
             self._out_data = result
             self._last_update = time
+            return self._out_data
 
-        return self._out_data
+        # repeated request for the same time (e.g. by a second consumer):
+        # the output refuses data sharing memory with what it delivered before
+        return self._out_data.copy()
